@@ -81,7 +81,13 @@ def run_bucket(cfg, res):
     b = util.TokenBucket(cap, rate)
     regimes = [(float(rate), float(cap))]
     vt.offset = 0.0
+    vt.jitter = 0.0
     b.timestamp = vt.time()
+    # every fifth case runs on a clock that moves a little with every look at it (a loaded machine): by the time the bucket
+    # gets round to sleeping, the wait it computed may already be over
+    if case % 5 == 4:
+      vt.jitter = r.choice([1e-7, 1e-4, 0.01, 0.3]) / rate
+      res.count('cases_on_a_moving_clock')
     grants = []
     ops = []
     refused = delayed = 0
@@ -112,7 +118,12 @@ def run_bucket(cfg, res):
           bal = max(0.0, cost - min(ccap, b._tokens + b.fill_rate * (t0 - b.timestamp)))
         except Exception:
           pass
-        got = b.drain(cost, blocking=True)
+        try:
+          got = b.drain(cost, blocking=True)
+        except Exception as e:
+          res.violation('bucket/blocking-raised/%s' % type(e).__name__, 'blocking drain of %r raised %r (clock moving by %.3g s per reading)' % (cost, e, vt.jitter),
+                        dict(ops=ops[-10:], cap=cap, rate=rate, jitter=vt.jitter))
+          break
         slept = vt.time() - t0
         ops.append(('drain-blocking', cost, slept))
         grants.append((vt.time(), cost, len(regimes) - 1))
@@ -123,7 +134,7 @@ def run_bucket(cfg, res):
         # (the deficit is at most the cost plus what earlier blocking acquisitions overdrew)
         if got is not True:
           res.violation('bucket/blocking-result', 'blocking drain returned %r' % (got,), dict(ops=ops[-10:]))
-        if bal is not None and slept > bal / regimes[-1][0] + EPS * max(1.0, slept) and b._tokens >= -cost - EPS:
+        if bal is not None and not vt.jitter and slept > bal / regimes[-1][0] + EPS * max(1.0, slept) and b._tokens >= -cost - EPS:
           res.violation('bucket/blocking-overslept', 'blocking drain of %r slept %.6g s, deficit %.6g at rate %.6g needs %.6g s' % (
                           cost, slept, bal, regimes[-1][0], bal / regimes[-1][0]), dict(ops=ops[-10:], cap=cap, rate=rate))
       else:
